@@ -409,3 +409,52 @@ def variant_region_consts(body, root=("arg", 1)):
             out[name] = sorted(ss)
         return out
     return None
+
+
+def reach_from_avoiding(body, start, avoid):
+    seen = set()
+    st = [start]
+    sc = body.succs()
+    while st:
+        b = st.pop()
+        if b in seen or b in avoid:
+            continue
+        seen.add(b)
+        st.extend(sc[b])
+    return seen
+
+
+def ret_consts_from_avoiding(body, start, avoid, limit=400):
+    """Like ret_consts_from, but paths entering `avoid` blocks are not followed."""
+    out = set()
+    seen = set()
+    st = [start]
+    while st:
+        b = st.pop()
+        if b in seen or b in avoid:
+            continue
+        seen.add(b)
+        if len(seen) > limit:
+            out.add("?")
+            break
+        assigned = False
+        for s in body.stmts(b):
+            if s["k"] == "assign" and s["p"]["l"] == 0 and not s["p"].get("p"):
+                rv = s["rv"]
+                if rv["k"] == "use" and rv["op"]["k"] == "const":
+                    out.add(Operand(rv["op"]).const_value())
+                else:
+                    out.add("?")
+                assigned = True
+        if assigned:
+            continue
+        t = body.term(b)
+        if t["k"] == "call":
+            c = body.call_at(b)
+            if c is not None and c.dest is not None and c.dest.local == 0 and not c.dest.proj:
+                out.add("?")
+                continue
+        if t["k"] == "return":
+            continue
+        st.extend(body.succ(b))
+    return out
